@@ -24,4 +24,4 @@ def run(ctx, proofs_ok):
             if sc == "tcp-lin-history":
                 rounds = max(5, rounds // 3)
             plan.append((sc, rounds, widen))
-    conc.run_scenarios(ctx, plan, "single-key scenarios (embedded API and TCP)", txprog=True)
+    conc.run_scenarios(ctx, plan, "single-key scenarios (embedded API and TCP)", txprog=True, prog_replay=False)
